@@ -26,7 +26,7 @@ _locked = {}
 
 
 def required(tier):
-    return ['spec-TP', 'spec-H', 'spec-S', 'vapour-fraction', 'independent-reflash', 'phase-boundary', 'iso-fugacity', 'raoult-rr', 'scaling', 'single-component', 'with-inerts']
+    return ['spec-TP', 'spec-H', 'spec-S', 'vapour-fraction', 'independent-reflash', 'phase-boundary', 'iso-fugacity', 'raoult-rr', 'scaling', 'single-component', 'with-inerts', 'spec-xy']
 
 
 def chem(i):
@@ -207,6 +207,21 @@ def run_case(case, rec):
                     V3 = vfrac(s3, vidx)
                     rec.check(abs(V3 - V0) <= 5e-3 + vb, 'independent-reflash', spec_name, f'vle({spec}) returned T={s.T!r}, P={s.P!r}; an independent TP flash there gives vapour fraction {V3!r}, not {V0} ({ids}, z={case["x"]})', residual=abs(V3 - V0))
                 two_phase = True
+        # ---- x / y specifications (binary equilibrium sets): the fixed variable is written, the named phase has the specified composition
+        if len(case['ids']) == 2 and kind != 'single':
+            zA = case['x'][0]
+            fv = case['f'] if 0 < case['f'] < 1 else 0.5
+            v = min(max(zA * (0.6 + 0.8 * fv), 0.01), 0.99)       # near the overall composition, so that the lever rule is often feasible
+            for nm in ('Tx', 'Ty', 'Px', 'Py'):
+                s = make(case, th)
+                fixed = {'T': T0} if nm[0] == 'T' else {'P': P0}
+                if not flash(s, **fixed, **{nm[1]: [v, 1 - v]}): continue
+                rec.hit('spec-xy')
+                rec.check(getattr(s, nm[0]) == fixed[nm[0]], 'spec-TP', nm, f'vle({fixed}, {nm[1]}=[{v}, {1 - v}]) on {ids} left {nm[0]}={getattr(s, nm[0])!r} (the stream started at T={case["T"] + case.get("dT0", 0)}, P={case["P"] * case.get("P0f", 1)})')
+                row = s.imol['l' if nm[1] == 'x' else 'g'].to_array()[vidx]
+                if row.sum() > 1e-9 * case['F']:
+                    got = row[0] / row.sum()
+                    rec.check(abs(got - v) <= 1e-4, 'spec-xy', nm, f'vle({fixed}, {nm[1]}=[{v}, ...]) on {ids}: the {"liquid" if nm[1] == "x" else "vapour"} holds a fraction {got!r} of {case["ids"][0]}', residual=abs(got - v))
         # ---- H and S specifications
         if kind != 'single':
             for fixed_name, fixed in (('P', {'P': P0}), ('T', {'T': T0})):
